@@ -258,7 +258,10 @@ func (pr *ProtoArray) Search(anchor NodeRef, parentRoot *Root, slot *Slot) (nonC
 			// if it has no child, it's a head.
 			if node.BestChild != NONE {
 				// if it has only empty slots as children, it's a head.
-				desc := &pr.nodes[node.BestDescendant]
+				desc, err := pr.getNode(node.BestDescendant)
+				if err != nil {
+					return nil, nil, err
+				}
 				if desc.Ref.Root != node.Ref.Root {
 					continue
 				}
